@@ -83,8 +83,8 @@ PROPS["C08"] = dict(jobs=ANY, obl=lambda o: any(x in o["name"] for x in ("record
 
 PROPS["C11"] = dict(jobs=None, obl=None, bounded="c11", level="other", design="4 C11",
                     technique="bounded stand-in: convert_to_utc on series straddling the offset transitions of IANA zones vs an oracle computed from the pytz transition tables (total, strictly increasing unique index, placement at local time minus offset in force, skipped/repeated hours merged next to the transition)")
-PROPS["C20"] = dict(jobs=None, obl=None, bounded="c20", level="other", design="4 C20",
-                    technique="bounded stand-in: every hourly-series helper vs an oracle written with datetime arithmetic only (index, unit, values; calendar rules incl. leap years, year ends, non-midnight starts, partial days)")
+PROPS["C20"] = dict(jobs=lambda j: j.startswith("timebuilder:"), obl=ALL_OBL, bounded="c20", level="other", design="4 C20",
+                    technique="P: contracts on create_hourly_usage_df_from_list and create_hourly_usage_from_frequency (all frequencies, default / given active days and hours, calendar fields as uninterpreted functions of the instant, loop invariant over the value array); B: every hourly-series helper vs an oracle written with datetime arithmetic only (index, unit, values; calendar rules incl. leap years, year ends, non-midnight starts, partial days)")
 
 PROPS["C13"] = dict(jobs=None, obl=None, bounded="c13", level="other", design="4 C13",
                     technique="bounded stand-in: whole-system JSON round trips (through text) of core topologies, edit histories and a system with every builder class: ids, classes, links, labels, sources, inputs, recomputed results, re-export equality, liveness, previous-major-version file")
